@@ -546,6 +546,10 @@ func xpathSeeds(f *fx.Fixture, t *abs.Tree, r *rand.Rand) (out []string) {
 		last := l[strings.LastIndexByte(l, '/')+1:]
 		out = append(out, last+ops[r.Intn(len(ops))]+lits[r.Intn(len(lits))])
 		out = append(out, l+ops[r.Intn(len(ops))]+lits[r.Intn(len(lits))])
+		// every operator with a text and a number literal on every leaf (whatever its type)
+		for _, op := range ops {
+			out = append(out, l+op+"'x'", l+op+"1", l+op+lits[r.Intn(len(lits))])
+		}
 		out = append(out, "../"+last+"="+lits[r.Intn(len(lits))])
 		out = append(out, last)
 		out = append(out, last+"="+last)
@@ -588,7 +592,7 @@ func planC13(tier string, seed int64) (*core.Plan, error) {
 	if every {
 		nTrees = 6
 	}
-	fixtures := []string{"M0", "S0", "S1", "S2", "S7"}
+	fixtures := []string{"M0", "S0", "S1", "S2", "S7", "S8"}
 	p := &core.Plan{Property: "C13", Tier: tier, Seed: seed, Level: "exploration", Isolated: true, CaseTimeout: 20 * time.Second,
 		Models: []core.ModelRun{{TLC: core.TLCRun{Module: "RobustModel", Workers: 4},
 			Description: "the robustness contract as a state machine (request of every shape, admitted outcomes, reread of the stored data): no reachable crash state, shape mismatches answered with an error, stored data readable after every answer"}},
@@ -771,12 +775,22 @@ func planC13(tier string, seed int64) (*core.Plan, error) {
 					}
 					for j := range f.DS {
 						leaf := &f.DS[j]
-						if (leaf.Kind != "leaf" && leaf.Kind != "leaflist") || len(leaf.SP) < len(ln.SP)+2 ||
+						if (leaf.Kind != "leaf" && leaf.Kind != "leaflist") || len(leaf.SP) < len(ln.SP)+1 ||
 							strings.Join(leaf.SP[:len(ln.SP)], "/") != strings.Join(ln.SP, "/") {
 							continue
 						}
 						rel := strings.Join(leaf.SP[len(ln.SP):], "/")
-						for _, x := range []string{rel + "='u'", rel + "!=1", rel, rel + ">0"} {
+						exprs := []string{rel}
+						for _, op := range []string{"=", "!=", "<", ">", "<=", ">="} {
+							for _, lit := range []string{"'u'", "1", "'b0'", "true", "1.5", "''", "99999999999999999999"} {
+								exprs = append(exprs, rel+op+lit)
+							}
+						}
+						if !every && len(exprs) > 14 {
+							r.Shuffle(len(exprs), func(i, j int) { exprs[i], exprs[j] = exprs[j], exprs[i] })
+							exprs = exprs[:14]
+						}
+						for _, x := range exprs {
 							for _, param := range []string{"where", "filter"} {
 								c := base("xpath", "pathological", "row-path")
 								c["at"], c["op"], c["text"] = lp, param, x
